@@ -59,6 +59,9 @@ impl FixtureDatabase {
                 );
                 #[cfg(pytest_language_server_verif)]
                 super::verif_hooks::event("analyze_exit_parse_error", &file_path);
+                // The cached text changed even though the index did not: answers derived
+                // from the text (imports of this file) must not be served from caches.
+                self.invalidate_cycle_cache();
                 return;
             }
         };
